@@ -124,13 +124,15 @@ pub struct AcctOracles {
     before: Option<Before>,
     /// nonce -> ciphertext digest, over everything ever seen (C10)
     nonces: BTreeMap<Vec<u8>, String>,
+    /// run seed (for the oracles that draw their own fault positions)
+    pub seed: u64,
 }
 
 const REKEY_OPS: [&str; 5] = ["compact", "compact_account", "chpw_folder", "chpw_account", "chcipher"];
 
 impl AcctOracles {
     pub fn new(prop: &str) -> Self {
-        AcctOracles { prop: prop.to_string(), before: None, nonces: BTreeMap::new() }
+        AcctOracles { prop: prop.to_string(), before: None, nonces: BTreeMap::new(), seed: 0 }
     }
 
     fn on(&self) -> bool {
@@ -400,6 +402,9 @@ impl AcctOracles {
         }
         if self.prop == "C16" {
             crate::tamper::integrity_checks(dev, rec).await;
+        }
+        if self.prop == "C18" {
+            crate::archw::archive_checks(dev, rec, self.seed).await;
         }
     }
 }
